@@ -32,8 +32,8 @@ def Prev.Sim (p : Prev) (q : Rec) : Prop := q.key = p.key ∧ q.rev = p.rev ∧ 
 /-- a plain read worker: no compaction, expiry disabled -/
 def WCfg.Plain (c : WCfg) : Prop := c.compact = false ∧ c.timeout = 0
 
-theorem expireStep_plain {c : WCfg} (hc : c.Plain) (r : Rec) : expireStep c r = none := by
-  simp [expireStep, hc.2]
+theorem expireStep_plain {c : WCfg} (hc : c.Plain) (live : Bytes) (r : Rec) : expireStep c live r = none := by
+  simp [expireStep, expiry, hc.2]
 
 theorem emitsOf_emitPrev {p : Prev} {q : Rec} (h : p.Sim q) : emitsOf (emitPrev p) = emitR q := by
   obtain ⟨h1, h2, h3⟩ := h
@@ -46,7 +46,6 @@ theorem workerStep_plain {c : WCfg} (hc : c.Plain) (p : Prev) (r : Rec) :
       if r.rev > c.R then ([], p)
       else ((if r.key != p.key then emitPrev p else []), ⟨r.key, r.rev, r.val⟩) := by
   unfold workerStep
-  rw [expireStep_plain hc]
   simp [hc.1]
 
 theorem emitsOf_workerLoop {c : WCfg} (hc : c.Plain) (p : Prev) (q : Rec) (h : p.Sim q) (l : List Rec) :
